@@ -1,0 +1,116 @@
+//go:build verif
+
+package ssh
+
+import (
+	"bufio"
+	"bytes"
+	"errors"
+	"io"
+	"strings"
+)
+
+// Hooks for the /verif harness, properties C25 and C26 (packet ciphers). Add-only; compiled only with -tags verif.
+
+// VerifCipher is one direction of a connection: a packetCipher created by the package's own
+// constructors (cipherModes[...].create) inside a connectionState that owns the sequence number.
+type VerifCipher struct {
+	cs *connectionState
+}
+
+// VerifNewCipher builds the packetCipher for the named cipher / MAC with explicit key material.
+// cipher "none" is the cipher a transport starts with (streamPacketCipher over noneCipher, no MAC).
+func VerifNewCipher(cipher, mac string, key, iv, macKey []byte, seq uint32) (*VerifCipher, error) {
+	var pc packetCipher
+	if cipher == "none" {
+		pc = &streamPacketCipher{cipher: noneCipher{}}
+	} else {
+		mode := cipherModes[cipher]
+		if mode == nil {
+			return nil, errors.New("verif: unknown cipher " + cipher)
+		}
+		if !aeadCiphers[cipher] && macModes[mac] == nil {
+			return nil, errors.New("verif: unknown mac " + mac)
+		}
+		var err error
+		pc, err = mode.create(bytes.Clone(key), bytes.Clone(iv), bytes.Clone(macKey), DirectionAlgorithms{Cipher: cipher, MAC: mac})
+		if err != nil {
+			return nil, err
+		}
+	}
+	return &VerifCipher{cs: &connectionState{packetCipher: pc, seqNum: seq, pendingKeyChange: make(chan packetCipher, 1)}}, nil
+}
+
+// VerifCipherSizes returns the key / IV / MAC-key sizes newPacketCipher would derive for the pair.
+func VerifCipherSizes(cipher, mac string) (keySize, ivSize, macKeySize int, ok bool) {
+	if cipher == "none" {
+		return 0, 0, 0, true
+	}
+	mode := cipherModes[cipher]
+	if mode == nil {
+		return 0, 0, 0, false
+	}
+	if !aeadCiphers[cipher] {
+		mm := macModes[mac]
+		if mm == nil {
+			return 0, 0, 0, false
+		}
+		macKeySize = mm.keySize
+	}
+	return mode.keySize, mode.ivSize, macKeySize, true
+}
+
+// WritePacket is connectionState.writePacket; it returns the bytes put on the wire.
+func (v *VerifCipher) WritePacket(rand io.Reader, payload []byte) ([]byte, error) {
+	var buf bytes.Buffer
+	w := bufio.NewWriter(&buf)
+	err := v.cs.writePacket(w, rand, bytes.Clone(payload), false)
+	return buf.Bytes(), err
+}
+
+// ReadPacket is connectionState.readPacket.
+func (v *VerifCipher) ReadPacket(r *bufio.Reader) ([]byte, error) {
+	return v.cs.readPacket(r, false)
+}
+
+// ReadCipherPacket calls the packetCipher directly with an explicit sequence number.
+func (v *VerifCipher) ReadCipherPacket(seq uint32, r io.Reader) ([]byte, error) {
+	p, err := v.cs.packetCipher.readCipherPacket(seq, r)
+	return bytes.Clone(p), err
+}
+
+// WriteCipherPacket calls the packetCipher directly with an explicit sequence number.
+func (v *VerifCipher) WriteCipherPacket(seq uint32, rand io.Reader, payload []byte) ([]byte, error) {
+	var buf bytes.Buffer
+	err := v.cs.packetCipher.writeCipherPacket(seq, &buf, rand, bytes.Clone(payload))
+	return buf.Bytes(), err
+}
+
+func (v *VerifCipher) SeqNum() uint32 { return v.cs.seqNum }
+
+// VerifPacketErrClass maps a reader / writer error to a small enum:
+// eof (stream ends inside a packet), len (length / multiple / CBC padding-length checks), mac (MAC or
+// AEAD tag mismatch), pad (AEAD padding checks), large (writer refuses payload), other.
+func VerifPacketErrClass(err error) string {
+	if err == nil {
+		return ""
+	}
+	if err == io.EOF || err == io.ErrUnexpectedEOF {
+		return "eof"
+	}
+	s := err.Error()
+	switch {
+	case strings.Contains(s, "MAC failure"), strings.Contains(s, "message authentication failed"):
+		return "mac"
+	case strings.HasPrefix(s, "ssh: empty packet"), strings.HasPrefix(s, "ssh: illegal padding"), strings.HasPrefix(s, "ssh: padding"):
+		return "pad"
+	case s == "ssh: packet too large" && !isCBCError(err):
+		return "large"
+	case strings.Contains(s, "packet too large"), strings.Contains(s, "packet too small"),
+		strings.Contains(s, "invalid packet length"), strings.Contains(s, "max packet length exceeded"):
+		return "len"
+	}
+	return "other"
+}
+
+func isCBCError(err error) bool { _, ok := err.(cbcError); return ok }
